@@ -278,6 +278,29 @@ class C20Executor(Executor):
                     pass
         return outs
 
+    def loop_spec(self, node):
+        """The block loop of a driver may live in a private helper that the driver calls directly (`return _apply(rk, data, fn)`):
+        when the driver's own body has no loop, its loop specification goes to the FIRST loop of a helper inlined at depth 1.  The
+        invariant finds its subjects by role among that helper's locals; where it does not fit, it raises Unsupported / fails on a
+        tagged path, i.e. `unknown`, never a refutation."""
+        import ast as _ast
+        spec = super().loop_spec(node)
+        c = getattr(self, "contract", None)
+        if spec is not None or c is None or self.abstract or getattr(c, "role", "") not in DRIVERS or self.inline_depth != 1:
+            return spec
+        if len(self.cur_fn_stack) != 2 or not isinstance(self.cur_fn_stack[-1], _ast.FunctionDef):
+            return None
+
+        def loops_of(fn):
+            ls = [n for n in _ast.walk(fn) if isinstance(n, (_ast.For, _ast.While))]
+            ls.sort(key=lambda n: (n.lineno, n.col_offset))
+            return ls
+        helper = self.cur_fn_stack[-1]
+        if loops_of(self.cur_fn_stack[0]) or self._has_yield(helper.body):
+            return None
+        hl = loops_of(helper)
+        return c.loops.get(0) if hl and hl[0] is node else None
+
     def s_For(self, s, st):
         return self._keep_cut_tag(super().s_For, s, st)
 
